@@ -136,6 +136,14 @@ def ordered_expr(p: Program, f: Func, e, depth=0, trail=None) -> Tuple[bool, str
             return False, f"`{name}` has no local definition"
         for b in binds:
             v = b.value
+            if isinstance(v, ast.DictComp):
+                gen = v.generators[0]
+                if len(v.generators) != 1 or gen.ifs or norm(v.key) != norm(gen.target):
+                    return False, f"dict comprehension `{norm(v)[:60]}` is not keyed by its own loop variable"
+                ok, why = ordered_expr(p, f, gen.iter, depth + 1, trail)
+                if not ok:
+                    return False, why
+                continue
             if isinstance(v, ast.Dict) and not v.keys or (isinstance(v, ast.Call) and norm(v.func) == "dict" and not v.args):
                 ok, why = _dict_filled_in_order(p, f, name, depth, trail)
                 if not ok:
